@@ -2,6 +2,7 @@ import BadgerProofs.Props.C01Reach
 import BadgerProofs.Lemmas.DbInv
 import BadgerProofs.Lemmas.Txn
 import BadgerModel.Reopen
+import BadgerModel.Drop
 /-!
 # C01 / C03 / C34 composed: snapshot reads of the whole database model, for every history
 
@@ -52,6 +53,10 @@ inductive DbReach (o : Opts) : List Ent → Db → Prop
   | reopen {hist : List Ent} {d : Db} (r : DbReach o hist d) (fid : Nat)
       (hnext : d.nextTs ≤ ({ d with lsm := d.lsm.flush fid } : Db).closeOpen.nextTs) :
       DbReach o hist ({ d with lsm := d.lsm.flush fid } : Db).closeOpen
+  /-- `DB.DropAll` (on-disk databases; `Db.dropAll`, BadgerModel/Drop.lean): the tree is emptied, the
+      oracle, the watermarks and the open transactions stay; the committed history starts afresh. -/
+  | dropall {hist : List Ent} {d : Db} (r : DbReach o hist d) (hmem : o.inMemory = false) :
+      DbReach o [] d.dropAll
   | compact {hist : List Ent} {d : Db} {s' : Lsm} (r : DbReach o hist d) (cd : CompactDef) (dts : Nat)
       (hd : dts ≤ d.discardAtOrBelow)
       (hi : ChoiceIdxOk d.lsm cd) (htop : cd.top ≠ []) (hvc : validChoice d.lsm cd = true)
@@ -458,6 +463,45 @@ theorem reopen_inv (h : Inv o hist d) (fid : Nat)
   · rw [fr, ft]
     exact ⟨⟨by simp [WmL.Sorted], by simp⟩, by show d'.nextTs - 1 < d'.nextTs; omega, by simp, by simp [openCount], by simp⟩
 
+theorem reach_levels_length {nlev : Nat} {hist : List Ent} {dm nm : Nat} {s : Lsm}
+    (r : Reach nlev hist dm nm s) : s.levels.length = nlev := by
+  induction r with
+  | init => simp [Lsm.init]
+  | put _ e _ _ _ ih => exact ih
+  | flush _ id ih =>
+    rename_i s0
+    unfold Lsm.flush
+    split
+    · exact ih
+    · split
+      · exact ih
+      · rename_i l0 rest hl; rw [hl] at ih; simpa using ih
+  | resort _ hl hp ih => rw [hl] at ih; simpa using ih
+  | compact _ cd d n now' hi htop hvc hdp hs hcut ih =>
+    obtain ⟨new0, _, rfl⟩ := LL.compact_some hs
+    show (LL.newLevels _ cd new0).length = _
+    unfold LL.newLevels
+    split <;> simp [ih]
+
+theorem dropall_inv (h : Inv o hist d) (hmem : o.inMemory = false) : Inv o [] d.dropAll := by
+  obtain ⟨dm, nm, R, _, _⟩ := h.l.reach
+  have hlen := reach_levels_length R
+  have ho : d.dropAll.opts = d.opts := by
+    unfold Db.dropAll
+    have : d.opts.inMemory = false := by rw [h.l.opts]; exact hmem
+    simp [this]
+  have hl : d.dropAll.lsm = Lsm.init o.maxLevels := by
+    show d.lsm.dropAll = _
+    unfold Lsm.dropAll Lsm.init
+    rw [← hlen]
+    simp only [Lsm.mk.injEq, true_and]
+    clear hlen R
+    induction d.lsm.levels with
+    | nil => rfl
+    | cons a l ih => simp [List.replicate_succ, ih]
+  refine ⟨⟨by rw [ho]; exact h.l.opts, ⟨0, 0, by rw [hl]; exact Reach.init, Nat.zero_le _, Nat.zero_le _⟩,
+    (by intro x hx; cases hx), h.l.nextPos⟩, h.w⟩
+
 theorem inv_of_reach (hm : o.managed = false) (r : DbReach o hist d) : Inv o hist d := by
   induction r with
   | init now => exact init_inv o now
@@ -470,6 +514,7 @@ theorem inv_of_reach (hm : o.managed = false) (r : DbReach o hist d) : Inv o his
   | flush _ fid ih => exact flush_inv ih fid
   | tick _ now' hn ih => exact tick_inv ih now' hn
   | reopen _ fid hnext ih => exact reopen_inv ih fid hnext
+  | dropall _ hmem ih => exact dropall_inv ih hmem
   | compact _ cd dts hd hi htop hvc hdp hs hcut ih => exact compact_inv hm ih cd dts hd hi htop hvc hdp hs hcut
 
 end DbL
